@@ -8,10 +8,13 @@ VARIABLE n
 \* acyclic call relations only (forward pairs + self recursion of p2)
 FwdPairs == {<<i, j>> \in (1..NP) \X (1..NP) : i < j} \cup {<<2, 2>>}
 GInit == n = 0
+\* TLC evaluates constant-level expressions once and caches them: a RandomElement over a constant set would
+\* return the same element in every step.  V(S) makes the argument depend on the state.
+V(S) == IF n < 0 THEN {} ELSE S
 GNext ==
-  \E f \in {RandomElement(Assigns(NP))} : \E R \in {RandomElement(SUBSET FwdPairs)} :
-  \E st \in {RandomElement(Styles)} : \E vi \in {RandomElement(VarImps)} : \E fm \in {RandomElement(FileModes)} :
-  \E so \in {RandomElement(SeedOpts)} : \E po \in {RandomElement(PruneOpts)} :
+  \E f \in {RandomElement(V(Assigns(NP)))} : \E R \in {RandomElement(V(SUBSET FwdPairs))} :
+  \E st \in {RandomElement(V(Styles))} : \E vi \in {RandomElement(V(VarImps))} : \E fm \in {RandomElement(V(FileModes))} :
+  \E so \in {RandomElement(V(SeedOpts))} : \E po \in {RandomElement(V(PruneOpts))} :
     LET P == MkProject(NP, f, R, st, vi, fm)
     IN /\ n' = n + 1
        /\ IF LegalProject(P) /\ AcyclicProject(P)
